@@ -685,10 +685,13 @@ func filterRow(f *btpb.RowFilter, r *btpb.Row) (bool, error) {
 		}
 		return true, nil
 	case *btpb.RowFilter_Condition_:
-		match, err := filterRow(f.Condition.PredicateFilter, copyRow(r))
+		pr := copyRow(r)
+		match, err := filterRow(f.Condition.PredicateFilter, pr)
 		if err != nil {
 			return false, err
 		}
+		// The predicate holds only if it lets at least one cell through.
+		match = match && !isEmpty(pr)
 		if match {
 			if f.Condition.TrueFilter == nil {
 				return false, nil
